@@ -9,7 +9,10 @@
 (* run's atomic sequence numbers:                                          *)
 (*   R         header, field v = "frr" | "k8s"                             *)
 (*   SB p c    submitter p enters its call with configuration c            *)
-(*             (c = -1: re-apply request / poke)                           *)
+(*             (c = -1: re-apply request / poke; c = -2: a submission that *)
+(*             the submitter itself rejects; otherwise c is the identity   *)
+(*             of the configuration the harness asked for, computed by the *)
+(*             harness from its own inputs)                                *)
 (*   SE p      the call returned                                           *)
 (*   B c       the reload action was entered with configuration c          *)
 (*   BE ok     it returned                                                 *)
@@ -59,7 +62,7 @@ Init == /\ i = 1
 (* the unlogged step: the submission of p takes effect now *)
 Place(p) ==
   /\ tp[p] # NONE
-  /\ s' = (IF tp[p] = OLD THEN NoConfEff(s) ELSE SubmitEff(s, tp[p]))
+  /\ s' = AnyEff(s, tp[p])
   /\ drift' = (drift \/ ~EffectAllowed(s, tp[p]))
   /\ tp' = [tp EXCEPT ![p] = NONE]
   /\ UNCHANGED <<i, inp, fails>>
